@@ -8,8 +8,8 @@
     list on which every query is its definition (filter / first / last / nth / length).
     [ev_valid] excludes only the empty key in Put/Get/Delete (the property is about non-empty keys;
     query arguments may be empty). *)
-From Coq Require Import List NArith ZArith.
-From Algo.C06 Require Import Spec SpecFacts Model ModelPat ProofsBin ProofsBinQ ProofsBinMain PatSweep PatInv.
+From Coq Require Import List NArith ZArith Lia.
+From Algo.C06 Require Import Spec SpecFacts Model ModelPat ProofsBin ProofsBinQ ProofsBinMain PatSweep PatInv PatBits PatTree PatPut.
 Import ListNotations.
 
 Local Notation a := 97%N.
@@ -132,6 +132,44 @@ Theorem C06_patricia_queries_checked_partial :
     p_step t e = (t, snd (s_step (p_contents t) e)).
 Proof. intros. now apply p_step_checked. Qed.
 
+(** Proved part 1b (universal, unbounded histories without deletes): Put preserves the logical
+    invariant [PInv] (the threads unfold into a tree with distinct inner nodes; side bits and prefix
+    agreement at every node; representable keys; size) and has exactly the specification's effect on
+    the contents; [PInv] implies [p_inv_check].  A key is representable ([kvalid]) when it is non-empty,
+    its bytes are below 256 and it does not end in 0x00 — exactly the domain outside the recorded
+    trailing-NUL finding.  Consequently, for EVERY history of Put (representable keys) and of the
+    queries Get, Size, Min, Max, Floor, Ceiling, Select, Rank, Range, RangeSize, All (any arguments),
+    the Patricia model returns what the specification returns, never panics and never runs out of fuel.
+    Still resting on the correspondence and the bounded sweep: Delete / DeleteMin / DeleteMax (the
+    four-pointer remove) and Match. *)
+Theorem C06_patricia_put_partial :
+  forall (V : Type) (t : pstate V) k (v : V), PInv t -> kvalid k ->
+    exists t', p_put t k v = ROk t' /\ PInv t' /\ p_inv_check t' = true /\
+               p_contents t' = sput k v (p_contents t).
+Proof.
+  intros V t k v I KV. destruct (p_put_preserves t k v I KV) as [t' [P [I' C]]].
+  exists t'. repeat split; auto. now apply PInv_check.
+Qed.
+
+Theorem C06_refines_patricia_noDelete :
+  forall (V : Type) (es : list (ev V)), Forall nd_event es -> p_run p_new es = s_run [] es.
+Proof. intros. now apply patricia_refines_noDelete. Qed.
+
+(** the bit-level facts behind it: DiffPos and the order of the zero padded bit strings *)
+Theorem C06_diffpos_spec : forall x y, kvalid x -> kvalid y -> x <> y ->
+  (1 <= diffpos x y)%Z /\
+  (forall pos, (1 <= pos < diffpos x y)%Z -> pbit x pos = pbit y pos) /\
+  pbit x (diffpos x y) <> pbit y (diffpos x y).
+Proof. intros. now apply diffpos_valid. Qed.
+
+Theorem C06_bit_order_is_lexicographic : forall x y b, bytes_ok x -> bytes_ok y -> (1 <= b)%Z ->
+  (forall pos, (1 <= pos < b)%Z -> pbit x pos = pbit y pos) -> pbit x b = false -> pbit y b = true -> klt x y.
+Proof. intros. now apply (lex_of_bits x y b). Qed.
+
+Example C06_example_patricia_noDelete :
+  Forall (@nd_event Z) [EPut [a;b] 1%Z; EPut [a] 2%Z; EPut [233%N] 3%Z; EPut [a;b] 4%Z; EGet [a;b]; ERank [b]; EAll].
+Proof. repeat constructor; simpl; try discriminate; try lia. Qed.
+
 (** Proved part 2 (finite, kernel-checked by vm_compute, deletes included): every history of at most 4
     mutators (Put/Delete of 5 keys with dense prefix relations, a high byte and a '*', DeleteMin,
     DeleteMax, DeleteAll: 30941 histories) followed by 96 queries (Size, All, Min, Max, Get / Floor /
@@ -180,6 +218,10 @@ Print Assumptions C06_spec_match.
 Print Assumptions C06_spec_floor.
 Print Assumptions C06_spec_ceiling.
 Print Assumptions C06_patricia_queries_checked_partial.
+Print Assumptions C06_patricia_put_partial.
+Print Assumptions C06_refines_patricia_noDelete.
+Print Assumptions C06_diffpos_spec.
+Print Assumptions C06_bit_order_is_lexicographic.
 Print Assumptions C06_patricia_bounded_partial.
 Print Assumptions C06_patricia_withprefix_refuted.
 Print Assumptions C06_patricia_longestprefixof_refuted.
